@@ -42,3 +42,10 @@ Proof.
     lra.
   - rewrite d2r_plus. f_equal. unfold d2r, r2d. field. apply PI_neq0.
 Qed.
+
+Theorem atbound_loops_terminate fuel ra y x : (2 <= fuel)%nat -> 0 <= ra <= 360 ->
+  atbound_loops fuel (r2d (d2r ra - atan2 y x)) = Some (atbound (r2d (d2r ra - atan2 y x))).
+Proof.
+  intros Hf Hra. apply atbound_loops_eq; [exact Hf|].
+  apply atbound_arg_range; [exact Hra|apply atan2_bound].
+Qed.
